@@ -464,8 +464,14 @@ fn gen_case(rng: &mut Rng, base: &Context, n: usize) -> Case {
             // comments are part of an input (and of the saved history): a trailing comment on some statements, and now
             // and then a statement whose string literal contains `#`
             let text = if rng.chance(1, 4) && !s.text.contains('\n') { format!("{}  # note {}", s.text, stmts.len()) } else { s.text.clone() };
-            stmts.push(text);
+            stmts.push(text.clone());
             tags.push(s.tag);
+            // now and then the user enters the very same line again (`let x = x * 2`, `ans * 3`, a print): it runs
+            // twice, so the saved history has to contain it twice
+            if rng.chance(1, 6) && run_input(&mut probe, &text).ok() {
+                stmts.push(text);
+                tags.push("repeated-line");
+            }
             if rng.chance(1, 8) {
                 let extra = format!("print(\"item #{} of {{{} + 1}}\")", stmts.len(), stmts.len());
                 if run_input(&mut probe, &extra).ok() {
